@@ -4,7 +4,7 @@ id=$1; f=$2; e=$3; shift 3
 cd /repo && cp "$f" /tmp/mut_backup.$$ && sed -i "$e" "$f"
 if git diff --quiet -- "$f"; then echo "MUTANT DID NOT APPLY"; rm /tmp/mut_backup.$$; exit 9; fi
 git diff -U0 -- "$f" | grep -E "^[+-]" | grep -vE "^(\+\+\+|---)"
-cd /verif && ./check $id "$@" 2>&1 | grep -E "VIOL|UNDEC|KNOWN|^C[0-9]+:|failed|error|timeout|vacuous|cex"
+cd /verif && VERIF_EVIDENCE_DIR=/tmp/mut_evidence ./check $id "$@" 2>&1 | grep -E "VIOL|UNDEC|KNOWN|^C[0-9]+:|failed|error|timeout|vacuous|cex"
 echo "rc=$?"
 cp /tmp/mut_backup.$$ /repo/"$f"; rm /tmp/mut_backup.$$
 cd /repo && git diff --quiet -- "$f" && echo restored
